@@ -129,8 +129,12 @@ def _check_unknown(res, fp, text, name):
                       {"kind": "unknown", "text": text, "name": name}))
 
 
+WORDS = ["null", "boolean", "int", "long", "float", "double", "bytes", "string", "record", "enum", "array", "map", "fixed", "union", "error",
+         "md5", "sha256", "MD5", "SHA-256", "CRC-64-AVRO", "true", "false", "{}", "[]", "0", '"', "\\", "int ", " int", "Int"]  # texts that merely LOOK like schemas or algorithm names
+
+
 def _long_texts():
-    out = []
+    out = list(WORDS)
     for n in (63, 64, 65, 255, 256, 257, 1023, 4096, 8191, 8192, 8193):
         out.append("a" * n)
         out.append(("é€𝄞\x00" * n)[:n])
@@ -210,7 +214,7 @@ def run_unit(unit, tier):
                 continue
             if name in sc.FINGERPRINT_ALGORITHMS and _hashlib_name(name):
                 continue  # advertised by this tree: checked as a digest in the "digests" unit, not as an unknown name
-            for t in ("", '"int"', "é"):
+            for t in ("", '"int"', "é", "md5", "sha256", "SHA-256", "CRC-64-AVRO", "int", name):
                 _check_unknown(res, fp, t, name)
         # the advertised set must contain the names the statement lists
         for name in _fixed_algos() + ["MD5", "SHA-256", "CRC-64-AVRO"]:
